@@ -2088,12 +2088,18 @@ class BSP:
                 # we were created from. Additionally, it seems the original
                 # face data has invalid texinfo, so copy ours on top of it.
                 if orig_faces is not None:
-                    orig_face = orig_faces[orig_face_ind]
-                    orig_face.texinfo = texinfo = self.texinfo[texinfo_ind]
+                    texinfo = self.texinfo[texinfo_ind]
                     try:
-                        orig_face.hammer_id = hammer_id = hammer_ids[i]
+                        hammer_id = hammer_ids[i]
                     except IndexError:
                         hammer_id = None
+                    if orig_face_ind >= 0:
+                        orig_face = orig_faces[orig_face_ind]
+                        orig_face.texinfo = texinfo
+                        if hammer_id is not None:
+                            orig_face.hammer_id = hammer_id
+                    else:  # -1 = no original face, don't wrap around to the last one.
+                        orig_face = None
                 else:
                     orig_face = texinfo = None
                     hammer_id = None
@@ -2151,9 +2157,11 @@ class BSP:
                 ))
         else:
             for face in faces:
+                if get_orig_face is not None:
+                    # The ID array is parallel to the faces, so every face needs an entry.
+                    hammer_ids.append(face.hammer_id or 0)  # Dummy value if not set.
                 if face.orig_face is not None and get_orig_face is not None:
                     orig_ind = get_orig_face(face.orig_face)
-                    hammer_ids.append(face.hammer_id or 0)  # Dummy value if not set.
                 else:
                     orig_ind = -1
                 if face.texinfo is not None:
